@@ -896,13 +896,10 @@ func (r *Reader) find(key []byte, filtered bool, ro *opt.ReadOptions, noValue bo
 	// Key doesn't use block buffer, no need to copy the buffer.
 	rkey = data.Key()
 	if !noValue {
-		if r.bpool == nil {
-			value = data.Value()
-		} else {
-			// Value does use block buffer, and since the buffer will be
-			// recycled, it need to be copied.
-			value = append([]byte(nil), data.Value()...)
-		}
+		// Value does use block buffer: with a buffer pool the buffer will be
+		// recycled, without one it may stay in the block cache while the
+		// caller is free to modify the returned value. Copy it either way.
+		value = append([]byte(nil), data.Value()...)
 	}
 	data.Release()
 	return
